@@ -71,7 +71,10 @@ def plan(pid, tier, seed):
                                 "EntityBuilderClone results, taken entities and command-buffer recordings; derived Bundle structs only via tuples"]}
     if pid == "C09":
         # the query profile asks every access path about stale, dangling and foreign handles too
-        return {"jobs": world_jobs(["malformed"], tier, seed, 200, 40000) + world_jobs(["query"], tier, seed + 9, 150, 20000),
+        # … and a command buffer replays inserts on handles that died in the meantime (rejected in the middle
+        # of a run, with further commands behind them)
+        return {"jobs": world_jobs(["malformed"], tier, seed, 200, 40000) + world_jobs(["query"], tier, seed + 9, 150, 20000)
+                + world_jobs(["containers"], tier, seed + 4, 120, 16000, length=80),
                 "trusted_base": WORLD_TRUST}
     if pid == "C16":
         return {"jobs": world_jobs(["reserve"], tier, seed, 200, 40000, also_release=True), "release": True,
